@@ -100,7 +100,7 @@ package regexp2
 // for its matchcount pairs, no two groups sharing a backing array, none sharing with matchcount.
 //@ spec func MatchWF(m *Match) bool = m != nil && len(m.matches) == len(m.matchcount) && len(m.matchcount) >= 1 && off(m.matches) == 0 && off(m.matchcount) == 0 && m.matches[0] != nil &&
 //@    (forall g int :: 0 <= g && g < len(m.matchcount) ==> GroupWF(m, g)) &&
-//@    (forall g int, h int :: 0 <= g && g < h && h < len(m.matchcount) && m.matches[g] != nil ==> ref(m.matches[g]) != ref(m.matches[h]))
+//@    (forall g int, h int {mark(g), mark(h)} :: 0 <= g && g < h && h < len(m.matchcount) && m.matches[g] != nil ==> ref(m.matches[g]) != ref(m.matches[h]))
 //@ spec func GroupWF(m *Match, g int) bool = 0 <= m.matchcount[g] && off(m.matches[g]) == 0 &&
 //@    (m.matches[g] != nil ==> len(m.matches[g]) >= 2 && 2*m.matchcount[g] <= len(m.matches[g]) && ref(m.matches[g]) != ref(m.matchcount) && allocated(m.matches[g])) &&
 //@    (m.matches[g] == nil ==> m.matchcount[g] == 0)
@@ -584,6 +584,7 @@ package regexp2
 //@     invariant g.Name == name && g.text == text && (capcount > 0 ==> g.RuneIndex == caps[2*capcount-2] && g.RuneLength == caps[2*capcount-1]) && (capcount == 0 ==> g.RuneIndex == 0 && g.RuneLength == 0)
 //@     decreases capcount - i
 
+//@ spec func GroupInside(m *Match, i int) bool = m.otherGroups[i].text == m.text && 0 <= m.otherGroups[i].RuneIndex && 0 <= m.otherGroups[i].RuneLength && m.otherGroups[i].RuneIndex + m.otherGroups[i].RuneLength <= len(m.text.runes)
 //@ func (m *Match) populateOtherGroups()
 //@   props C08 C17
 //@   requires m != nil && MatchWF(m) && m.regex != nil && GroupsWF(m.regex)
@@ -596,7 +597,9 @@ package regexp2
 //@             len(m.otherGroups[i].Captures) == m.matchcount[i+1] && m.otherGroups[i].text == m.text &&
 //@             (m.matchcount[i+1] > 0 ==> m.otherGroups[i].RuneIndex == m.matches[i+1][2*m.matchcount[i+1]-2] && m.otherGroups[i].RuneLength == m.matches[i+1][2*m.matchcount[i+1]-1]) &&
 //@             (m.matchcount[i+1] == 0 ==> m.otherGroups[i].RuneIndex == 0 && m.otherGroups[i].RuneLength == 0)
+//@   ensures[inside] old(m.otherGroups) == nil && m.text != nil && AllLastCapsInText(m) ==> forall i int :: 0 <= i && i < len(m.otherGroups) ==> GroupInside(m, i)
 //@   loop 0:
+//@     invariant[inside] m.text != nil && AllLastCapsInText(m) ==> forall k int :: 0 <= k && k < i ==> GroupInside(m, k)
 //@     invariant 0 <= i && i <= len(m.otherGroups) && len(m.otherGroups) == len(m.matchcount) - 1 && fresh(m.otherGroups) && off(m.otherGroups) == 0 && m.otherGroups != nil
 //@     invariant forall k int :: 0 <= k && k < i ==>
 //@             len(m.otherGroups[k].Captures) == m.matchcount[k+1] && m.otherGroups[k].text == m.text &&
@@ -898,7 +901,7 @@ package regexp2
 //@   requires m.otherGroups != nil ==> len(m.otherGroups) == len(m.matchcount) - 1 && off(m.otherGroups) == 0
 //@   requires forall k int :: 0 <= k && k < len(m.matchcount) ==> m.matches[k] != nil || m.matchcount[k] == 0
 //@   requires[group0] m.Group.text == m.text && 0 <= m.RuneIndex && 0 <= m.RuneLength && m.RuneIndex + m.RuneLength <= len(m.text.runes)
-//@   requires[cached] old(m.otherGroups) != nil ==> forall i int :: 0 <= i && i < len(m.otherGroups) ==> m.otherGroups[i].text == m.text && 0 <= m.otherGroups[i].RuneIndex && 0 <= m.otherGroups[i].RuneLength && m.otherGroups[i].RuneIndex + m.otherGroups[i].RuneLength <= len(m.text.runes)
+//@   requires[cached] old(m.otherGroups) != nil ==> forall i int :: 0 <= i && i < len(m.otherGroups) ==> GroupInside(m, i)
 //@   modifies m.otherGroups
 //@   ensures len(g) == len(m.matchcount) && fresh(g)
 //@   ensures[text] forall i int :: 0 <= i && i < len(g) ==> g[i].text == m.text
